@@ -19,6 +19,7 @@ var files = []genFile{
 	{"NumericSimp.lean", genNumericSimp},
 	{"EncTags.lean", genEncTags},
 	{"EncBuiltins.lean", genEncBuiltins},
+	{"EncDispatch.lean", genEncDispatch},
 }
 
 func main() {
